@@ -12,8 +12,12 @@
 // for the purposes of this model (`tree()`): `children()` yields the child nodes in order,
 // `children_with_tokens()` yields all children in order, `kind()`/`text()` read the subtree.
 // SOUNDNESS CONDITION: `tree()` is the subtree at the time of the call. Trees made by new_root_mut are
-// mutable through &self (splice_children, detach); no contract in a unit using this prelude may span such a
-// call — the units that use it (deb822tree) contain only the parser and read-only accessors.
+// mutable through &self in rowan (splice_children, detach). The model gives `splice_children` a `&mut self`
+// receiver: the handle *through which the edit is made* is the one whose `tree()` changes, and only that one.
+// Other handles into the same tree (children obtained earlier, a parent, an iterator) are NOT updated by the
+// model: a contract may not use such a handle after an edit (the edit functions under contract in unit
+// deb822edit return right after their single splice). Aliasing — "handles obtained earlier see the edit",
+// `detach()` on a child changing its parent — is outside this model.
 // The unit must define the enum `SyntaxKind`; Lang::kind_to_raw / kind_from_raw (an unsafe transmute in
 // the repository) is assumed to be the identity on it.
 // ---------------------------------------------------------------------------------------------
@@ -178,6 +182,15 @@ pub mod rowan {
     pub open spec fn elem_tree(e: SyntaxElement) -> Tree {
         match e { NodeOrToken::Node(n) => n.tree(), NodeOrToken::Token(t) => t.tree() }
     }
+    pub open spec fn elems_trees(es: Seq<SyntaxElement>) -> Seq<Tree> { es.map_values(|e: SyntaxElement| elem_tree(e)) }
+    /// positions (among all children) of the children that are nodes, in order
+    pub open spec fn node_positions(ch: Seq<Tree>) -> Seq<int>
+        decreases ch.len()
+    {
+        if ch.len() == 0 { Seq::empty() }
+        else if ch.last() is Node { node_positions(ch.drop_last()).push(ch.len() - 1) }
+        else { node_positions(ch.drop_last()) }
+    }
 
     impl SyntaxToken {
         /// the leaf this handle points at
@@ -193,6 +206,12 @@ pub mod rowan {
             ensures r@ == tree_text(self.tree())
         { unimplemented!() }
     }
+
+    /// a SyntaxNode handle always points at a node, never at a token
+    #[verifier::external_body]
+    pub proof fn axiom_node_is_node(n: SyntaxNode)
+        ensures n.tree() is Node
+    { }
 
     impl SyntaxNode {
         /// the green subtree this handle points at (at the time of the call)
@@ -218,12 +237,35 @@ pub mod rowan {
             ensures r@ == tree_text(self.tree())
         { unimplemented!() }
 
-        /// the child nodes, in order
+        /// the child nodes, in order, each knowing its position among all children
         #[verifier::external_body]
         pub fn children(&self) -> (r: VxIter<SyntaxNode>)
             ensures
                 r@.len() == child_nodes(tree_children(self.tree())).len(),
-                forall|i: int| 0 <= i < r@.len() ==> (#[trigger] r@[i]).tree() == child_nodes(tree_children(self.tree()))[i],
+                forall|i: int| 0 <= i < r@.len() ==> (#[trigger] r@[i]).tree() == child_nodes(tree_children(self.tree()))[i]
+                    && r@[i].index_spec() == node_positions(tree_children(self.tree()))[i],
+        { unimplemented!() }
+
+        /// position among the parent's children (nodes and tokens)
+        pub uninterp spec fn index_spec(&self) -> int;
+
+        #[verifier::external_body]
+        pub fn index(&self) -> (r: usize)
+            // a position among the parent's children is smaller than their number, which fits a usize
+            ensures r == self.index_spec(), r < usize::MAX
+        { unimplemented!() }
+
+        /// rowan: `splice_children(&self, to_delete, to_insert)` replaces the children in the range by the new
+        /// elements (panics when the range is out of bounds). MODEL: `&mut self`, see the header.
+        #[verifier::external_body]
+        pub fn splice_children(&mut self, to_delete: core::ops::Range<usize>, to_insert: Vec<SyntaxElement>)
+            requires
+                old(self).tree() is Node,
+                to_delete.start <= to_delete.end <= tree_children(old(self).tree()).len(),
+            ensures
+                final(self).tree() == Tree::Node(tree_kind(old(self).tree()),
+                    tree_children(old(self).tree()).take(to_delete.start as int) + elems_trees(to_insert@)
+                        + tree_children(old(self).tree()).skip(to_delete.end as int)),
         { unimplemented!() }
 
         /// all children, nodes and tokens, in order
@@ -241,6 +283,11 @@ use rowan::{GreenNode, GreenNodeBuilder};
 impl VxDisplay for rowan::SyntaxText {
     open spec fn display_spec(&self) -> Seq<char> { self@ }
 }
+
+/// R-method-map (unit deb822edit): `node.into()` (impl From<SyntaxNode> for SyntaxElement) => vx_node_into(node)
+pub fn vx_node_into(n: rowan::SyntaxNode) -> (r: rowan::SyntaxElement)
+    ensures r == rowan::NodeOrToken::<rowan::SyntaxNode, rowan::SyntaxToken>::Node(n)
+{ rowan::NodeOrToken::Node(n) }
 
 /// R-method-map: `kind.into()` (impl From<SyntaxKind> for rowan::SyntaxKind) => vx_kind_into(kind)
 #[verifier::external_body]
